@@ -6,8 +6,8 @@
 (* exhaustively (tiny constants) and with -simulate (larger constants).     *)
 EXTENDS SyncMachine, TLC, Json, CSV, IOUtils
 
+CONSTANT ArrivalsPerState
 VARIABLE hist
-gvars == <<vars, hist>>
 
 \* what the harness compares for machine i after every step
 Proj(i) == [pc |-> pc[i], cur |-> cur[i], lastEnd |-> lastEnd[i], waitReq |-> waitReq[i],
@@ -21,32 +21,81 @@ Log(a, i, b) == hist' = Append(hist, [a |-> a, i |-> i, bad |-> b, block |-> blo
 
 AllReturned == \A i \in M : pc[i] \in {"done", "failed"}
 
-GInit == Init /\ hist = <<>>
+(* The protocol, the start block, the initial height and the fault plan are  *)
+(* chosen by setup steps rather than in Init, so that -simulate does not     *)
+(* have to enumerate every combination as an initial state.  A fault plan    *)
+(* [kind, k] lets the fault `kind` happen only while state k is current,     *)
+(* which keeps random behaviours from dying in their first steps.            *)
+VARIABLES phase, plan
+gvars == <<vars, hist, phase, plan>>
+
+Plans == [kind : Faults \cup {"none"}, k : 1..MaxN]
+
+GInit ==
+    /\ cfg = <<>> /\ start = 0 /\ block = 0 /\ block0 = 0
+    /\ pc = [i \in M |-> "idle"]
+    /\ cur = [i \in M |-> 1]
+    /\ lastEnd = [i \in M |-> 0]
+    /\ waitReq = [i \in M |-> 0]
+    /\ initReq = [i \in M |-> [k \in 1..MaxN |-> NA]]
+    /\ initAct = [i \in M |-> [k \in 1..MaxN |-> NA]]
+    /\ endReq = [i \in M |-> 0]
+    /\ registered = [i \in M |-> FALSE]
+    /\ queue = [i \in M |-> <<>>]
+    /\ accepted = [i \in M |-> <<>>]
+    /\ seen = [i \in M |-> [k \in 1..MaxN |-> <<>>]]
+    /\ nArr = [i \in M |-> 0]
+    /\ rcvErr = [i \in M |-> 0]
+    /\ outcome = [i \in M |-> Running]
+    /\ hist = <<>>
+    /\ phase \in 1..MaxN          \* number of states still to add
+    /\ plan = [i \in M |-> [kind |-> "none", k |-> 1]]
+
+machineVars == <<pc, cur, lastEnd, waitReq, initReq, initAct, endReq, registered, queue,
+                 accepted, seen, nArr, rcvErr, outcome>>
+
+AddState ==
+    /\ phase > 0
+    /\ \E d \in Delays, a \in Actives : cfg' = Append(cfg, [d |-> d, a |-> a])
+    /\ phase' = phase - 1
+    /\ IF phase = 1
+          THEN /\ start' \in Starts
+               /\ block' \in InitBlocks
+               /\ block0' = block'
+               /\ plan' \in [M -> Plans]
+          ELSE UNCHANGED <<start, block, block0, plan>>
+    /\ UNCHANGED <<machineVars, hist>>
+
+MayFail(i, kind) == plan[i].kind = kind /\ plan[i].k = cur[i]
 
 GNext ==
-    /\ ~AllReturned
-    /\ \/ Mine /\ hist' = Append(hist, [a |-> "Mine", i |-> 0, bad |-> FALSE, block |-> block', s |-> [pc |-> "-"]])
-       \/ \E i \in M :
-            \/ Exec(i) /\ Log("Exec", i, FALSE)
-            \/ StartReached(i) /\ Log("StartReached", i, FALSE)
-            \/ DelayReached(i) /\ Log("DelayReached", i, FALSE)
-            \/ InitiateEnd(i) /\ Log("InitiateEnd", i, FALSE)
-            \/ HandOff(i) /\ Log("HandOff", i, FALSE)
-            \/ EndBegin(i) /\ Log("EndBegin", i, FALSE)
-            \/ EndNext(i) /\ Log("EndNext", i, FALSE)
-            \/ FailStart(i) /\ Log("FailStart", i, FALSE)
-            \/ FailDelay(i) /\ Log("FailDelay", i, FALSE)
-            \/ FailInitiate(i) /\ Log("FailInitiate", i, FALSE)
-            \/ FailWaiter(i) /\ Log("FailWaiter", i, FALSE)
-            \/ FailNext(i) /\ Log("FailNext", i, FALSE)
-            \/ \E b \in BadMsgs : Arrive(i, b) /\ Log("Arrive", i, b)
+    \/ AddState
+    \/ /\ phase = 0
+       /\ ~AllReturned
+       /\ UNCHANGED <<phase, plan>>
+       /\ \/ Mine /\ hist' = Append(hist, [a |-> "Mine", i |-> 0, bad |-> FALSE, block |-> block', s |-> [pc |-> "-"]])
+          \/ \E i \in M :
+               \/ Exec(i) /\ Log("Exec", i, FALSE)
+               \/ StartReached(i) /\ Log("StartReached", i, FALSE)
+               \/ DelayReached(i) /\ Log("DelayReached", i, FALSE)
+               \/ InitiateEnd(i) /\ Log("InitiateEnd", i, FALSE)
+               \/ HandOff(i) /\ Log("HandOff", i, FALSE)
+               \/ EndBegin(i) /\ Log("EndBegin", i, FALSE)
+               \/ EndNext(i) /\ Log("EndNext", i, FALSE)
+               \/ MayFail(i, "start") /\ FailStart(i) /\ Log("FailStart", i, FALSE)
+               \/ MayFail(i, "delay") /\ FailDelay(i) /\ Log("FailDelay", i, FALSE)
+               \/ MayFail(i, "initiate") /\ FailInitiate(i) /\ Log("FailInitiate", i, FALSE)
+               \/ MayFail(i, "waiter") /\ FailWaiter(i) /\ Log("FailWaiter", i, FALSE)
+               \/ MayFail(i, "next") /\ FailNext(i) /\ Log("FailNext", i, FALSE)
+               \/ /\ nArr[i] < ArrivalsPerState * cur[i]     \* sampling bias only: spread arrivals over the states
+                  /\ \E b \in BadMsgs : Arrive(i, b) /\ Log("Arrive", i, b)
 
 GSpec == GInit /\ [][GNext]_gvars
 
 CarryOver == \E i \in M, k \in 1..N : \E j \in 1..Len(seen[i][k]) : seen[i][k][j].at # k
 
 Emit ==
-    AllReturned =>
+    (phase = 0 /\ AllReturned) =>
         CSVWrite("%1$s", <<ToJson([cfg |-> cfg, start |-> start, block0 |-> block0,
                                     machines |-> Cardinality(M), steps |-> hist,
                                     carry |-> CarryOver])>>, "behaviours.ndjson")
